@@ -449,7 +449,7 @@ func main() {
 	}
 	run := ev.Start("C13", "model_checking")
 	var items [][]int
-	positions := []int{2, 3}
+	positions := []int{1, 2, 3, 4}
 	if run.Thorough() {
 		positions = []int{1, 2, 3, 4}
 	}
